@@ -26,7 +26,9 @@ LineEdges(S, dist, s) == {{k, l} : <<k, l>> \in {p \in Keys(S) \X Keys(S) : p[1]
 
 \* directed line graph: arc e -> f iff the target set of e and the source set of f overlap by at least s
 DirSim(dist, e, f)      == Sim(dist, e.t, f.s)
-DirLineArcs(S, dist, s) == {p \in Keys(S) \X Keys(S) : QLe(s, DirSim(dist, p[1], p[2]))}
+\* (between DISTINCT hyperedges: with disjoint source and target sets a hyperedge never feeds itself; when a node sits on both
+\*  sides the statement is silent about loops, and loops are compared by nobody - Trace_C10 drops them from what was logged)
+DirLineArcs(S, dist, s) == {p \in Keys(S) \X Keys(S) : p[1] # p[2] /\ QLe(s, DirSim(dist, p[1], p[2]))}
 
 \* simplicial complex: the downward closure, as a set of node sets
 Faces(S) == UNION {SUBSET KN(k) \ {{}} : k \in Keys(S)}
